@@ -1,6 +1,7 @@
 import MosnVerif.Lemmas.Transfer
 import MosnVerif.Lemmas.Shutdown
 import MosnVerif.Lemmas.StageManager
+import MosnVerif.Lemmas.H2GoAway
 /-!
 # C11 — graceful shutdown and hot upgrade lose no requests (property theorems only; level `other`)
 
@@ -184,6 +185,112 @@ example : (sysInit 150 false false).wf := by unfold Sys.wf; decide
 -- HTTP/2 traits: a stream that exists at the signal completes, a stream begun after the GOAWAY is refused (retryable)
 example : ((run (sysInit 150 true true) [.connect, .decoded 0, .signal GracefulStopping, .respDone 0]).conns.map (·.served)) = [1] := by decide
 example : ((run (sysInit 150 true true) [.connect, .bytes 0, .signal GracefulStopping, .decoded 0]).conns.map (fun c => (c.refusedReq, c.notified))) = [(1, 1)] := by decide
+
+/-! ## HTTP/2: the streams in flight when the graceful GOAWAY goes out (`Model/H2GoAway.lean`) -/
+section h2goaway
+open MosnVerif.Model MosnVerif.Lemmas.H2GoAway
+open MosnVerif.Model.H2GoAway (getS setS bodyFrames stepWith runWith dropAllRule Out)
+
+/-- **inflight_h2_body_completes**: on every reachable state `c0` of an HTTP/2 server connection that has not sent a
+GOAWAY, let the HEADERS of a new request (odd id above every earlier one, optional content-length) arrive, followed by
+ANY event list `evs` in which the frames of that stream are exactly the rest of its request — DATA frames of any sizes
+within the declared length, ended by END_STREAM on the last one or by trailers — and everything else is arbitrary:
+frames of other streams, and the graceful shutdown (`GoAway()`) **at any position, any number of times**: before the
+first DATA frame, between two DATA frames, between the last DATA frame and the trailers, after the end.  Unless a
+protocol violation on another stream tears the connection down, the request is handed to the proxy with its complete
+body.  (The guards of `processData` / `processHeaders` enter through `Gen.H2GoAway.dataDiscarded` / `headersIgnored`.) -/
+theorem inflight_h2_body_completes (pre evs : List H2GoAway.Ev) (id : Nat) (decl : Option Nat) (tr : Bool) (chunks : List Nat) :
+    let c0 := (H2GoAway.run H2GoAway.Conn.initial pre).1
+    c0.dead = false → c0.inGoAway = false → id % 2 = 1 → getS c0 id = none → c0.maxId < id →
+    evs.filter (fun e => !e.other id) = bodyFrames id tr chunks →
+    (∀ d, decl = some d → chunks.sum ≤ d) → (tr = true ∨ chunks ≠ []) →
+    (H2GoAway.run c0 (.headers id false decl :: evs)).1.dead = false →
+    Out.deliver id chunks.sum ∈ (H2GoAway.run c0 (.headers id false decl :: evs)).2 := by
+  intro c0 hd hg hodd hnone hmax hp hdecl hend hfin
+  have hstep := open_step c0 id decl hd hg hodd hnone hmax
+  rw [run_cons, hstep] at hfin ⊢
+  have hk : Keeps ({ setS c0 id ⟨id, false, 0, decl, false⟩ with maxId := id } : H2GoAway.Conn) id ⟨id, false, 0, decl, false⟩ :=
+    ⟨hd, getS_setS_eq c0 id _, Nat.le_refl _, fun h => by rw [show ({ setS c0 id ⟨id, false, 0, decl, false⟩ with maxId := id } : H2GoAway.Conn).inGoAway = c0.inGoAway from rfl, hg] at h; exact Bool.noConfusion h⟩
+  have := inflight_complete id decl tr hodd evs chunks _ 0 hk hfin hp (by intro d h; have := hdecl d h; omega) hend
+  simpa using this
+
+/-- **inflight_h2_goaway_between_frames**: the statement without any survival hypothesis, for a connection that carries
+this request only: HEADERS, then the body frames with `GoAway()` invoked at ANY position `n` among them (before the
+first DATA frame, between any two, before the trailers, after the end) — the connection stays open and the request is
+delivered with its complete body. -/
+theorem inflight_h2_goaway_between_frames (id : Nat) (decl : Option Nat) (tr : Bool) (chunks : List Nat) (n : Nat)
+    (hodd : id % 2 = 1) (hdecl : ∀ d, decl = some d → chunks.sum ≤ d) (hend : tr = true ∨ chunks ≠ []) :
+    let evs := H2GoAway.Ev.headers id false decl ::
+      ((bodyFrames id tr chunks).take n ++ [H2GoAway.Ev.shutdown] ++ (bodyFrames id tr chunks).drop n)
+    (H2GoAway.run H2GoAway.Conn.initial evs).1.dead = false ∧
+    Out.deliver id chunks.sum ∈ (H2GoAway.run H2GoAway.Conn.initial evs).2 := by
+  intro evs
+  have hbody := body_other id tr chunks
+  let tl := (bodyFrames id tr chunks).take n ++ [H2GoAway.Ev.shutdown] ++ (bodyFrames id tr chunks).drop n
+  have hall : ∀ e ∈ tl, e = H2GoAway.Ev.shutdown ∨ H2GoAway.Ev.other id e = false := by
+    intro e he
+    simp only [tl, List.mem_append, List.mem_singleton] at he
+    rcases he with (he | he) | he
+    · exact Or.inr (hbody e (List.mem_of_mem_take he))
+    · exact Or.inl he
+    · exact Or.inr (hbody e (List.mem_of_mem_drop he))
+  have hfilter : tl.filter (fun e => !H2GoAway.Ev.other id e) = bodyFrames id tr chunks := by
+    have hf : ∀ l : List H2GoAway.Ev, (∀ e ∈ l, H2GoAway.Ev.other id e = false) →
+        l.filter (fun e => !H2GoAway.Ev.other id e) = l := by
+      intro l hl
+      apply List.filter_eq_self.2
+      intro e he; simp [hl e he]
+    simp only [tl, List.filter_append]
+    rw [hf _ (fun e he => hbody e (List.mem_of_mem_take he)), hf _ (fun e he => hbody e (List.mem_of_mem_drop he))]
+    simp [H2GoAway.Ev.other, List.take_append_drop]
+  have hstep := open_step H2GoAway.Conn.initial id decl rfl rfl hodd rfl (show (0 : Nat) < id by omega)
+  have hk : Keeps ({ setS H2GoAway.Conn.initial id ⟨id, false, 0, decl, false⟩ with maxId := id } : H2GoAway.Conn) id
+      ⟨id, false, 0, decl, false⟩ :=
+    ⟨rfl, getS_setS_eq _ id _, Nat.le_refl _, fun h => Bool.noConfusion h⟩
+  have halive := alone_alive id decl tr hodd tl chunks _ 0 hk hall hfilter
+    (by intro d h; have := hdecl d h; omega)
+  show (H2GoAway.run H2GoAway.Conn.initial (.headers id false decl :: tl)).1.dead = false ∧
+    Out.deliver id chunks.sum ∈ (H2GoAway.run H2GoAway.Conn.initial (.headers id false decl :: tl)).2
+  rw [run_cons, hstep]
+  refine ⟨halive, ?_⟩
+  have := inflight_complete id decl tr hodd tl chunks _ 0 hk halive hfilter
+    (by intro d h; have := hdecl d h; omega) hend
+  simpa using this
+
+/-- the rule owed by `processData` and `processHeaders`, as regenerated: after a graceful GOAWAY nothing of a stream at
+or below the last stream id is dropped; after it no new stream is opened (its id would exceed the last stream id) -/
+theorem h2_goaway_rule (code : Int) (id last : Nat) (h : id ≤ last) :
+    Gen.H2GoAway.dataDiscarded true Gen.H2GoAway.gracefulCode id last = false ∧
+    Gen.H2GoAway.headersIgnored true Gen.H2GoAway.gracefulCode id last = false ∧
+    Gen.H2GoAway.dataDiscarded false code id last = false ∧
+    (last < id → Gen.H2GoAway.headersIgnored true code id last = true) :=
+  ⟨dataDiscarded_inflight true _ id last (fun _ => rfl) h, headersIgnored_inflight true _ id last (fun _ => rfl) h,
+   dataDiscarded_inflight false code id last (fun h => Bool.noConfusion h) h, fun h' => by omega⟩
+
+/-- **refused_stream_harmless**: a stream the client begins after the GOAWAY (its id is above the last stream id; the
+client may not have seen the GOAWAY yet) cannot disturb the connection: its HEADERS, DATA and RST_STREAM frames are
+dropped without any effect — no connection error, so the requests in flight survive it. -/
+theorem refused_stream_harmless (c : H2GoAway.Conn) (j n : Nat) (es : Bool) (d : Option Nat)
+    (hg : c.inGoAway = true) (hj : c.maxId < j) :
+    H2GoAway.step c (.headers j es d) = (c, []) ∧ H2GoAway.step c (.data j n es) = (c, []) ∧
+    H2GoAway.step c (.rst j) = (c, []) :=
+  ⟨refused_stream_step c _ j hg hj (Or.inr (Or.inl ⟨es, d, rfl⟩)),
+   refused_stream_step c _ j hg hj (Or.inr (Or.inr (Or.inl ⟨n, es, rfl⟩))),
+   refused_stream_step c _ j hg hj (Or.inr (Or.inr (Or.inr rfl)))⟩
+
+-- non-vacuity / the mutator's description "goaway between data frames": HEADERS, DATA(100), GoAway(), DATA(200, END_STREAM)
+example : (H2GoAway.run H2GoAway.Conn.initial [.headers 1 false (some 300), .data 1 100 false, .shutdown, .data 1 200 true]).2 =
+    [Out.goAway 1 0, Out.deliver 1 300] := by decide
+-- ... between the last DATA frame and the trailers; and a stream begun after the GOAWAY is ignored, its DATA discarded
+example : (H2GoAway.run H2GoAway.Conn.initial [.headers 1 false none, .data 1 100 false, .shutdown, .headers 3 false none, .data 3 5 true,
+    .headers 1 true none]).2 = [Out.goAway 1 0, Out.deliver 1 100] := by decide
+-- the witness for the rule "drop DATA whenever a GOAWAY has been sent": the half-received request is never delivered
+example : (runWith dropAllRule H2GoAway.Conn.initial [.headers 1 false (some 300), .data 1 100 false, .shutdown, .data 1 200 true]).2 =
+    [Out.goAway 1 0] := by decide
+-- an error GOAWAY (here: DATA on an idle stream) does discard everything and the connection is closed
+example : (H2GoAway.run H2GoAway.Conn.initial [.headers 1 false none, .data 7 1 false, .data 1 5 true]).2 =
+    [Out.goAway 1 1, Out.closed] := by decide
+end h2goaway
 
 /-! ## stage manager -/
 
